@@ -39,8 +39,9 @@ var checks = map[string]*checkDef{
 		property: "C19", level: "fault_enumeration",
 		plan: []planItem{
 			{workload: "C19", variant: "plain", quick: 700, thorough: 14000},
-			{workload: "C19", variant: "purego", thorough: 1400, thoroughOnly: true},
-			{workload: "C19", variant: "force32bit", thorough: 1400, thoroughOnly: true},
+			{workload: "C19", variant: "purego", quick: 210, thorough: 1400},
+			{workload: "C19", variant: "force32bit", quick: 210, thorough: 1400},
+			{workload: "C19", variant: "noavx2", quick: 140, thorough: 1400},
 		},
 		assume: []string{
 			"scope: artifacts the running system produced, under the faults storage and networks produce (enumerated per artifact); the universal claim over all byte strings is not decided, seeded random strings are added as noise only",
@@ -52,9 +53,9 @@ var checks = map[string]*checkDef{
 		property: "C09", level: "exploration",
 		plan: []planItem{
 			{workload: "C09", variant: "plain", quick: 12000, thorough: 300000},
-			{workload: "C09", variant: "noavx2", thorough: 15000, thoroughOnly: true},
-			{workload: "C09", variant: "purego", thorough: 15000, thoroughOnly: true},
-			{workload: "C09", variant: "force32bit", thorough: 8000, thoroughOnly: true},
+			{workload: "C09", variant: "noavx2", quick: 800, thorough: 15000},
+			{workload: "C09", variant: "purego", quick: 800, thorough: 15000},
+			{workload: "C09", variant: "force32bit", quick: 480, thorough: 8000},
 		},
 		assume: []string{
 			"the per-entry reference decision is the library's own single verification (that is the property's definition); whether that decision is right against RFC 8032 / ZIP-215 is C01, which this technique does not decide, so a defect shared by all paths is silent here",
@@ -67,9 +68,9 @@ var checks = map[string]*checkDef{
 		plan: []planItem{
 			{workload: "C02", variant: "plain", quick: 16000, thorough: 600000},
 			{workload: "C02F", variant: "plain", quick: 160, thorough: 3200},
-			{workload: "C02", variant: "noavx2", thorough: 40000, thoroughOnly: true},
-			{workload: "C02", variant: "purego", thorough: 40000, thoroughOnly: true},
-			{workload: "C02", variant: "force32bit", thorough: 20000, thoroughOnly: true},
+			{workload: "C02", variant: "noavx2", quick: 1600, thorough: 40000},
+			{workload: "C02", variant: "purego", quick: 1600, thorough: 40000},
+			{workload: "C02", variant: "force32bit", quick: 1600, thorough: 20000},
 		},
 		assume: []string{
 			"scope: exactness is decided on the seeds, messages and contexts the workload generates, against Go's crypto/ed25519 (go1.23) as an independent RFC 8032 implementation; the universal claim for seeds whose clamped scalar or nonce lands on special residues is not reachable by a schedule, stream or fault and is not decided",
@@ -80,9 +81,9 @@ var checks = map[string]*checkDef{
 		property: "C12", level: "exploration",
 		plan: []planItem{
 			{workload: "C12", variant: "plain", quick: 8000, thorough: 300000},
-			{workload: "C12", variant: "purego", thorough: 30000, thoroughOnly: true},
-			{workload: "C12", variant: "noavx2", thorough: 30000, thoroughOnly: true},
-			{workload: "C12", variant: "force32bit", thorough: 15000, thoroughOnly: true},
+			{workload: "C12", variant: "purego", quick: 800, thorough: 30000},
+			{workload: "C12", variant: "noavx2", quick: 800, thorough: 30000},
+			{workload: "C12", variant: "force32bit", quick: 480, thorough: 15000},
 		},
 		assume: []string{
 			"the schnorrkel model (key expansion, witness, challenge, s, encodings) is written from the schnorrkel / Merlin definitions over the independent Merlin model and math/big; group operations inside the model are the library's Ristretto arithmetic (trusted layer), so arithmetic defects shared by both sides are invisible here",
@@ -94,9 +95,9 @@ var checks = map[string]*checkDef{
 		property: "C15", level: "exploration",
 		plan: []planItem{
 			{workload: "C15", variant: "plain", quick: 4000, thorough: 150000},
-			{workload: "C15", variant: "purego", thorough: 15000, thoroughOnly: true},
-			{workload: "C15", variant: "noavx2", thorough: 15000, thoroughOnly: true},
-			{workload: "C15", variant: "force32bit", thorough: 8000, thoroughOnly: true},
+			{workload: "C15", variant: "purego", quick: 480, thorough: 15000},
+			{workload: "C15", variant: "noavx2", quick: 480, thorough: 15000},
+			{workload: "C15", variant: "force32bit", quick: 320, thorough: 8000},
 		},
 		assume: []string{
 			"scope: the protocol layer (framing, separator octets, nonce and challenge derivation in both formats, canonicity and key-validation rules, proof_to_hash) is re-implemented from RFC 9381 with crypto/sha512 and math/big and validated against the RFC's vectors on every start; encode_to_curve (h2c suite) and curve point arithmetic are delegated to the library inside the model, so exactness of Elligator and of the group law is not decided here (C14 / C03 are not applicable to this technique)",
@@ -106,10 +107,10 @@ var checks = map[string]*checkDef{
 	"C06": {
 		property: "C06", level: "exploration", differential: true,
 		plan: []planItem{
-			{workload: "C06", variant: "plain", quick: 240, thorough: 20000},
-			{workload: "C06", variant: "noavx2", quick: 240, thorough: 20000},
-			{workload: "C06", variant: "purego", quick: 240, thorough: 20000},
-			{workload: "C06", variant: "force32bit", quick: 240, thorough: 20000},
+			{workload: "C06", variant: "plain", quick: 1200, thorough: 40000},
+			{workload: "C06", variant: "noavx2", quick: 1200, thorough: 40000},
+			{workload: "C06", variant: "purego", quick: 1200, thorough: 40000},
+			{workload: "C06", variant: "force32bit", quick: 1200, thorough: 40000},
 		},
 		assume: []string{
 			"the oracle is self-differential: the same seeds are executed on the four builds (amd64 assembly + AVX2, GODEBUG=cpu.avx2=off, -tags purego, -tags force32bit) and the per-run event-log digests must be equal; a defect shared by all four backends is invisible",
